@@ -35,6 +35,9 @@ class Pipe:
         return Conn()
 
 
+MIXED = {"on": False, "n": 0}      # when on: only every other list item becomes a data-type object
+
+
 def dataclassify(cls, value):
     """build cls from a snake_case dict, nested data types as dataclass instances where annotated"""
     if not (dataclasses.is_dataclass(cls) and isinstance(value, dict)):
@@ -63,7 +66,13 @@ def _conv(t, v):
         return v
     if origin in (list, typing.List) and isinstance(v, list):
         args = typing.get_args(t)
-        return [_conv(args[0], x) for x in v] if args else v
+        if not args:
+            return v
+        out = []
+        for x in v:
+            MIXED["n"] += 1
+            out.append(x if (MIXED["on"] and MIXED["n"] % 2) else _conv(args[0], x))
+        return out
     if isinstance(t, type) and dataclasses.is_dataclass(t) and isinstance(v, dict):
         try:
             return dataclassify(t, v)
@@ -76,20 +85,25 @@ def modname(version):
     return "v16" if version == "1.6" else "v201"
 
 
-def make_request(version, action, snake, as_dataclasses):
-    mod = importlib.import_module("ocpp.%s.call" % modname(version))
+def _make(modname_, version, action, snake, as_dataclasses):
+    mod = importlib.import_module("ocpp.%s.%s" % (modname(version), modname_))
     cls = getattr(mod, action)
     if as_dataclasses:
-        return dataclassify(cls, copy.deepcopy(snake))
+        MIXED["on"] = as_dataclasses == "mixed"
+        try:
+            return dataclassify(cls, copy.deepcopy(snake))
+        finally:
+            MIXED["on"] = False
     return cls(**copy.deepcopy(snake))
+
+
+def make_request(version, action, snake, as_dataclasses):
+    """as_dataclasses: False (nested dicts) | True (nested data-type objects) | 'mixed' (lists mixing both)"""
+    return _make("call", version, action, snake, as_dataclasses)
 
 
 def make_result(version, action, snake, as_dataclasses):
-    mod = importlib.import_module("ocpp.%s.call_result" % modname(version))
-    cls = getattr(mod, action)
-    if as_dataclasses:
-        return dataclassify(cls, copy.deepcopy(snake))
-    return cls(**copy.deepcopy(snake))
+    return _make("call_result", version, action, snake, as_dataclasses)
 
 
 def fields_of(obj):
